@@ -708,6 +708,19 @@ def monitors_used(spec):
 
 
 def check(prop, tier, seed):
+    # checks of different properties share the Coq build, the cargo target directory and the
+    # pipeline cache: when several are started at once they take turns
+    import fcntl
+    os.makedirs(CACHE, exist_ok=True)
+    with open(os.path.join(CACHE, "lock"), "w") as lk:
+        fcntl.flock(lk, fcntl.LOCK_EX)
+        try:
+            return _check(prop, tier, seed)
+        finally:
+            fcntl.flock(lk, fcntl.LOCK_UN)
+
+
+def _check(prop, tier, seed):
     t0 = time.time()
     spec = props.PROPS[prop]
     evidence = {"property_id": prop, "tier": tier, "seed": seed, "level": "proof", "coverage": {},
